@@ -19,7 +19,7 @@ def load_program(mirdir):
     for f in ('data.mir', 'spec.mir'):
         p = os.path.join(mirdir, f)
         if os.path.exists(p):
-            prog.load_mir(open(p, encoding='utf-8', errors='replace').read())
+            prog.load_mir(open(p, encoding='utf-8', errors='replace').read(), with_allocs=(f == 'spec.mir'))
     for f in ('lib.rs', 'parser.rs', 'lexer.rs', 'chardata.rs'):
         prog.load_enums_from_source(os.path.join(REPO, 'autosar-data', 'src', f))
     prog.load_enums_from_source(os.path.join(REPO, 'autosar-data-specification', 'src', 'lib.rs'))
